@@ -221,7 +221,10 @@ def build(case, with_dask, out_dir=None):
 
 def snapshot(det, pipe):
     """the settings of the caller's objects that the swept keys address"""
-    out = [repr(float(det.environment.temperature))]
+    try:
+        out = [repr(float(det.environment.temperature))]
+    except Exception as ex:  # noqa: BLE001  (no temperature on this detector: a model that reads it would say so)
+        out = ["?" + type(ex).__name__]
     try:
         for m in pipe.charge_collection.models:
             out.append(repr(sorted((k, repr(v)) for k, v in dict(m.arguments).items())))
@@ -363,6 +366,46 @@ def handle_obs(case):
     return dict(seq=seq, dask=dasks)
 
 
+def fitting_problem(case):
+    """pyxel's own calibration problem (ModelFittingDataTree) on a pipeline with one fitted model and models that are
+    SWITCHED OFF: whoever evaluates a candidate -- this thread, a pool thread, a worker that received the problem
+    through pickle -- must simulate the same data.  case["fit"] = dict(pattern, target, off=[positions of the switched
+    -off models in the model list])"""
+    import logging
+
+    import pyxel.calibration.fitting_datatree as fdt
+    from harness import pyx
+    from pyxel.calibration import FitRange2D
+    from pyxel.exposure import Readout
+    from pyxel.observation import ParameterValues
+    from pyxel.pipelines import Processor
+    from pyxel.pipelines.model_function import FitnessFunction
+
+    logging.disable(logging.CRITICAL)
+    fit = case["fit"]
+    pat = [[float(v) for v in row] for row in fit["pattern"]]
+    rows, cols = len(pat), len(pat[0])
+    det = pyx.make_detector(rows=rows, cols=cols)
+    models = [dict(func="verif_probes_c07.calprobe", name="cal", arguments=dict(pattern=pat, gain=1.0, bias=0.0))]
+    for k, pos in enumerate(fit.get("off", [])):
+        models.insert(min(pos, len(models)), dict(func="verif_probes_c07.calprobe", name=f"off{k}", enabled=False,
+                                                  arguments=dict(pattern=[[64.0 * (k + 1)] * cols] * rows)))
+    pipe = pyx.make_pipeline({"charge_collection": models})
+    proc = Processor(detector=det, pipeline=pipe)
+    variables = [ParameterValues(key="pipeline.charge_collection.cal.arguments.gain", values="_", logarithmic=False,
+                                 boundaries=(0.0, 8.0)),
+                 ParameterValues(key="pipeline.charge_collection.cal.arguments.bias", values="_", logarithmic=False,
+                                 boundaries=(-4.0, 4.0))]
+    fn = os.path.abspath("c07_target.npy")
+    np.save(fn, np.array(fit["target"], dtype=float))
+    rng = FitRange2D(row=slice(0, rows), col=slice(0, cols))
+    return fdt.ModelFittingDataTree(
+        processor=proc, variables=variables, readout=Readout(), simulation_output="pixel", generations=1,
+        population_size=5, fitness_func=FitnessFunction(func="verif_probes_c07.absdiff", arguments=None), file_path=None,
+        target_fit_range=rng, out_fit_range=rng, target_filenames=[fn], input_arguments=None, weights=None,
+        weights_from_file=None)
+
+
 def handle_islands(case):
     """ArchipelagoDataTree._build with parallel=False / True (optionally with the dask batch fitness evaluator, under a
     dask scheduler, followed by one evolution): per island the seed of its population, the first fitness and -- after
@@ -384,27 +427,29 @@ def handle_islands(case):
                 pg.set_global_rng_seed(seed=case["seed"] % 100000)
                 algo = Algorithm(type="sade", generations=case.get("generations", 1), population_size=case["pop"])
                 arch = ArchipelagoDataTree(num_islands=case["n"], udi=DaskIsland(), algorithm=algo,
-                                           problem=vp.SlowProblem(case.get("scale", 0.0) if par else 0.0),
+                                           problem=(fitting_problem(case) if case.get("fit") else
+                                                    vp.SlowProblem(case.get("scale", 0.0) if par else 0.0)),
                                            topology=pg.unconnected(), pop_size=case["pop"], pygmo_seed=case["seed"],
                                            bfe=(DaskBFE(chunk_size=case.get("chunk")) if case.get("bfe") else None),
                                            parallel=par)
                 isl = []
                 for island in arch._pygmo_archi:
                     pop = island.get_population()
-                    isl.append(dict(seed=int(pop.get_seed()) % (2 ** 31), f0=int(pop.get_f()[0][0])))
+                    isl.append(dict(seed=int(pop.get_seed()) % (2 ** 31), f0=q(pop.get_f()[0][0]) if case.get("fit")
+                                    else int(pop.get_f()[0][0])))
                 if case.get("evolve") and not par:
                     # the reference: every island's algorithm evolves its population here, one after the other, in
                     # this thread -- no island threads, no dask
                     for k, island in enumerate(arch._pygmo_archi):
                         pop = island.get_algorithm().evolve(island.get_population())
-                        isl[k]["champ_f"] = int(pop.champion_f[0])
+                        isl[k]["champ_f"] = q(pop.champion_f[0]) if case.get("fit") else int(pop.champion_f[0])
                         isl[k]["champ_x"] = [q(x) for x in pop.champion_x]
                 elif case.get("evolve"):
                     arch._pygmo_archi.evolve()          # every island in its own thread, DaskIsland.run_evolve
                     arch._pygmo_archi.wait_check()
                     for k, island in enumerate(arch._pygmo_archi):
                         pop = island.get_population()
-                        isl[k]["champ_f"] = int(pop.champion_f[0])
+                        isl[k]["champ_f"] = q(pop.champion_f[0]) if case.get("fit") else int(pop.champion_f[0])
                         isl[k]["champ_x"] = [q(x) for x in pop.champion_x]
             return isl
         except Exception as ex:  # noqa: BLE001
@@ -429,14 +474,22 @@ def handle_bfe(case):
     import verif_probes_c07 as vp
     from pyxel.calibration.user_defined import DaskBFE
 
-    prob = pg.problem(vp.SlowProblem(0.0))
+    fit = bool(case.get("fit"))
+    prob = pg.problem(fitting_problem(case) if fit else vp.SlowProblem(0.0))
     rng = np.random.default_rng(case["seed"])
     dvs = rng.integers(0, 1024, size=(case["n"], 2)) / 1024.0
-    seq = [int(prob.fitness(dv)[0]) for dv in dvs]
+    if fit:
+        # candidates (gain, bias) inside the bounds, dyadic: the figure of merit is exact
+        dvs = np.stack([rng.integers(0, 32, size=case["n"]) / 4.0, rng.integers(-16, 17, size=case["n"]) / 4.0], axis=1)
+
+    def val(v):
+        return int(round(float(v) * 1024)) if fit else int(v)
+
+    seq = [val(prob.fitness(dv)[0]) for dv in dvs]
     outs = []
     for sched in case["scheds"]:
         try:
-            slow = pg.problem(vp.SlowProblem(case.get("scale", 0.0)))
+            slow = prob if fit else pg.problem(vp.SlowProblem(case.get("scale", 0.0)))
             cfg, pool = sched_config(sched)
             try:
                 with dask.config.set(**cfg):
@@ -445,7 +498,7 @@ def handle_bfe(case):
             finally:
                 if pool is not None and hasattr(pool, "shutdown"):
                     pool.shutdown()
-            outs.append(dict(values=[int(v) for v in r.reshape(-1)]))
+            outs.append(dict(values=[val(v) for v in r.reshape(-1)]))
         except Exception as ex:  # noqa: BLE001
             outs.append(dict(raised=type(ex).__name__, msg=str(ex)[:200]))
     return dict(seq=seq, dask=outs)
